@@ -496,7 +496,12 @@ pub fn inputs_c09(r: &mut Rng, n: usize, tier: &str, out: &mut dyn Write) {
             }
         }
     }
-    for _ in 0..n {
+    for k in 0..n {
+        if k % 16 == 15 {
+            // {:?} {:x} {:X} {:e} {:E} on epochs held in any scale
+            super::wrappers::gen_c09(r, out);
+            continue;
+        }
         let ts = scale(r);
         match r.below(32) {
             0..=9 => writeln!(out, "display {}", epoch_c09(r, ts)).unwrap(),
